@@ -194,8 +194,11 @@ Definition mstep (c : cfg) (m : mon) (o : op) (ro : out) : verdict * mon :=
       if l2tx_pre c b then
         match txs, r with [], RPre => (Ok, m) | _, _ => (Bad t_shape, m) end
       else
-        let busy := if passthrough c then match g with O => true | _ => false end
-                    else match m_sdu m with None => false | Some _ => true end in
+        (* the pass-through specialisation hands the SDU to the radio at once, or refuses it *)
+        let busy := match m_sdu m with
+                    | Some _ => true
+                    | None => passthrough c && match g with O => true | _ => false end
+                    end in
         match r with
         | RBusy => match txs with [] => (if busy then Ok else Bad t_order, m) | _ => (Bad t_shape, m) end
         | ROk =>
@@ -203,7 +206,9 @@ Definition mstep (c : cfg) (m : mon) (o : op) (ro : out) : verdict * mon :=
             else
               match judge_tx (m_maxtx m) (Some (b, false)) txs with
               | (Bad t, _) => (Bad t, m)
-              | (Ok, cur) => (Ok, set_tx_m m cur txs)
+              | (Ok, cur) =>
+                  (if passthrough c && match cur with None => false | Some _ => true end
+                   then Bad t_frag_shape else Ok, set_tx_m m cur txs)
               end
         | _ => (Bad t_shape, m)
         end
